@@ -147,7 +147,7 @@ func runC11(cfg *vh.Config) error {
 		inputs = append(inputs, input{s, "seq2adj", cfg.Tier == "thorough" || r.Chance(40)})
 	}
 	// ---- stream 2: corpus windows, unmutated and mutated
-	nWin := cfg.Scale(300, 6000)
+	nWin := cfg.Scale(250, 6000)
 	for i := 0; i < nWin; i++ {
 		w := window(r, vh.Pick(r, corpus), 10)
 		if i%3 != 0 {
@@ -162,7 +162,7 @@ func runC11(cfg *vh.Config) error {
 	}
 	// ---- stream 3: grammar-generated
 	g := &srcGen{r: r.Fork("gen")}
-	nGen := cfg.Scale(250, 6000)
+	nGen := cfg.Scale(200, 6000)
 	for i := 0; i < nGen; i++ {
 		s := g.file(5)
 		if i%2 == 1 {
@@ -171,7 +171,7 @@ func runC11(cfg *vh.Config) error {
 		inputs = append(inputs, input{s, "grammar", true})
 	}
 	// ---- stream 4: soup and raw bytes
-	nSoup := cfg.Scale(200, 4000)
+	nSoup := cfg.Scale(150, 4000)
 	for i := 0; i < nSoup; i++ {
 		if i%5 == 4 {
 			inputs = append(inputs, input{string(r.Bytes(r.Range(0, 24))), "bytes", true})
@@ -182,7 +182,7 @@ func runC11(cfg *vh.Config) error {
 
 	// ---- stream 4b: every prefix (at token boundaries) of valid statements: EOF in every grammatical position
 	gp := &srcGen{r: r.Fork("prefix")}
-	nPre := cfg.Scale(60, 600)
+	nPre := cfg.Scale(50, 600)
 	for i := 0; i < nPre; i++ {
 		var sb strings.Builder
 		gp.statement("", 1, &sb)
